@@ -108,10 +108,12 @@ VRT_SCENARIO(sh, "fulfiller + observers on copies of one SharedFuture") {
       } else if (op == "get") {
         vrt::Api api{"Get"};
         auto r = std::move(sf).Get();
+        VRT_STACK_RETURN();
         vrt::Obs("get", name + ":" + vh::Desc(r));
       } else if (op == "get_const") {
         vrt::Api api{"GetConst"};
         const auto& r = std::as_const(sf).Get();
+        VRT_STACK_RETURN();
         vrt::Obs("get", name + ":" + vh::Desc(r));
       }
       {
